@@ -22,7 +22,7 @@ CLAIMS['C12'] = (
     'static analysis: for each of ~170 call sites whose callee can fail because of read/write/lseek/ftruncate, '
     'follows the failure classes of the callee\'s return convention (and short counts of read()/write()) through '
     'the caller on all CFG paths and shows they cannot reach a success exit; callee-side convention check; '
-    'compile-fail witness for dropped must-check results; C12-e: a retried write passes source + result and count - result. C12-f: read_data() returns fewer bytes than requested only behind a read() == 0 edge. C12-a (extended): end of file inside a copy of known length is a failure. C12-h: the chunk copy moves exactly the stored size at the chunk's own offsets. Decides the error-propagation mechanism of C12 in '
+    'compile-fail witness for dropped must-check results; C12-e: a retried write passes source + result and count - result. C12-f: read_data() returns fewer bytes than requested only behind a read() == 0 edge. C12-a (extended): end of file inside a copy of known length is a failure. C12-h: the chunk copy moves exactly the stored size at the offsets of the chunk. Decides the error-propagation mechanism of C12 in '
     'library and tools, not faults inside dependencies, close() results or deferred ENOSPC.',
     'trusted: clang 14 front end; frozen return-convention table (checked against inferred return classes); '
     'external summaries of read/write/lseek/ftruncate; value classes {-1,<-1,0,1,>1}')
